@@ -130,7 +130,8 @@ def prelude_runs(v):
         for pname, pre in PRELUDES.items():
             for kind in ("wide", "trail"):
                 for eou in ("true", "false"):
-                    for mode in (["--emit", "stdout"], ["--check"], []):
+                    for mode in (["--emit", "stdout"], ["--check"], [], ["--emit", "stdout", "-q"],
+                                 ["--quiet"], ["<stdin>"]):
                         if kind == "wide":
                             body = f"fn f() {{\n    let {wide} = 1;\n}}\n"
                             off = 2
@@ -141,10 +142,12 @@ def prelude_runs(v):
                         line = pre.count("\n") + off
                         f = sc / f"p{n}.rs"
                         f.write_text(pre + body)
-                        r = subprocess.run([rustfmt] + mode + ["--config",
+                        stdin = mode == ["<stdin>"]
+                        r = subprocess.run([rustfmt] + ([] if stdin else mode) + ["--config",
                                             f"error_on_line_overflow=true,error_on_unformatted={eou},"
-                                            "color=Never", str(f)], cwd=sc,
+                                            "color=Never"] + ([] if stdin else [str(f)]), cwd=sc,
                                            env=core.run_env({"HOME": str(sc)}),
+                                           input=(pre + body) if stdin else None,
                                            capture_output=True, text=True, timeout=60)
                         n += 1
                         got, msg = set(), None
@@ -153,7 +156,9 @@ def prelude_runs(v):
                             if t.startswith(("error", "warning")):
                                 msg = t.split(": ", 1)[-1]
                             elif t.startswith("-->") and msg and msg.startswith(LINE_MSGS):
-                                got.add(int(t[3:].strip().rsplit("/", 1)[-1].split(":")[1]))
+                                loc = t[3:].strip().rsplit("/", 1)[-1]
+                                if loc.split(":")[0] == ("<stdin>" if stdin else f.name):
+                                    got.add(int(loc.split(":")[1]))
                         if got != {line} or r.returncode != 1:
                             v.violation(f"prelude:{pname}:{kind}:eou={eou}:{'_'.join(mode) or 'files'}",
                                         f"run with prelude {pname!r} ({kind} at line {line}, "
